@@ -999,6 +999,16 @@ fn get_expr_var(model: &mut Model, expr: &ExprBuilder) -> VarId {
     }
 }
 
+/// True when an expression is built from integer variables and integer literals only
+fn is_int_expr(model: &Model, expr: &ExprBuilder) -> bool {
+    match expr {
+        ExprBuilder::Var(v) => v.to_index() < model.vars.count() && matches!(model.vars[*v], crate::variables::Var::VarI(_)),
+        ExprBuilder::Val(v) => matches!(v, Val::ValI(_)),
+        ExprBuilder::Add(a, b) | ExprBuilder::Sub(a, b) | ExprBuilder::Mul(a, b)
+        | ExprBuilder::Div(a, b) | ExprBuilder::Modulo(a, b) => is_int_expr(model, a) && is_int_expr(model, b),
+    }
+}
+
 /// Try to convert expression-based constraints to linear constraint AST
 /// 
 /// Analyzes Binary constraints with Add/Mul expressions like:
@@ -1425,7 +1435,23 @@ pub(crate) fn materialize_constraint_kind(model: &mut Model, kind: &ConstraintKi
                 }
             }
             
-            // For general OR cases, we need proper reification (not yet implemented)
+            // Two comparisons over integer operands: reify both sides (b1 <=> left, b2 <=> right)
+            // and require b1 OR b2. The int_*_reif propagators are integer propagators, so a side
+            // with a float variable or a float literal still takes the fallback below.
+            if let (ConstraintKind::Binary { left: l1, op: op1, right: r1 },
+                    ConstraintKind::Binary { left: l2, op: op2, right: r2 }) = (&left.kind, &right.kind) {
+                if [l1, r1, l2, r2].iter().all(|e| is_int_expr(model, e)) {
+                    let (b1, b2, one) = (model.bool(), model.bool(), model.int(1, 1));
+                    materialize_constraint_kind(model, &ConstraintKind::ReifiedBinary {
+                        left: l1.clone(), op: op1.clone(), right: r1.clone(), reif_var: b1 });
+                    materialize_constraint_kind(model, &ConstraintKind::ReifiedBinary {
+                        left: l2.clone(), op: op2.clone(), right: r2.clone(), reif_var: b2 });
+                    return model.props.bool_or(vec![b1, b2], one);
+                }
+            }
+
+            // For the other OR cases (a nested and/or/not side, float operands), we need proper
+            // reification (not yet implemented)
             // For now, fall back to posting both constraints (which may conflict for some cases)
             materialize_constraint_kind(model, &left.kind);
             materialize_constraint_kind(model, &right.kind)
